@@ -151,6 +151,12 @@ func qeConst(e ref.E) gl.QuadraticExtensionVariable {
 }
 
 func c15RandE(r *rand.Rand) ref.E {
+	switch r.Intn(10) {
+	case 8:
+		return ref.E{0, 1 + randGL(r)%(P-1)} // zero first coordinate, non-zero second
+	case 9:
+		return ref.E{1, 1 + randGL(r)%(P-1)} // unit first coordinate, non-zero second
+	}
 	switch r.Intn(8) {
 	case 0:
 		return ref.E{edgeGL[r.Intn(7)], edgeGL[r.Intn(7)]}
@@ -450,8 +456,16 @@ func init() {
 							numC = n
 						}
 					}
-					numC += r.Intn(3)
-					want := ref.EvaluateGateConstraints(specs, selIdx, groups, numC, ref.Vars{Constants: consts, Wires: wires, PIHash: pih})
+					tooFew := c.Int("i")%6 == 5 && numC > 1
+					if tooFew {
+						numC -= 1 + r.Intn(numC-1) // fewer slots than the largest gate needs: must be refused
+					} else {
+						numC += r.Intn(3)
+					}
+					var want []ref.E
+					if !tooFew {
+						want = ref.EvaluateGateConstraints(specs, selIdx, groups, numC, ref.Vars{Constants: consts, Wires: wires, PIHash: pih})
+					}
 					var outs []gl.QuadraticExtensionVariable
 					res := harnRunOpt(engine.Options{Face: engine.Native}, func(api frontend.API) error {
 						var gs []gates.Gate
@@ -482,6 +496,13 @@ func init() {
 					o.Events += events(res) + 1
 					if io, bad := inconclusiveIf(res); bad {
 						return io
+					}
+					if tooFew {
+						if res.Verdict == engine.Accept {
+							return fw.Violate("too_few_constraint_slots_not_refused", fmt.Sprintf("gates %v with num_gate_constraints = %d: constraints beyond that count were dropped silently", specTypes(specs), numC))
+						}
+						o.Inc("too_few_constraint_slots_refused")
+						return o
 					}
 					if res.Verdict != engine.Accept {
 						return fw.Violate("evaluate_gate_constraints_failed", fmt.Sprintf("gates %v groups %v: %s %s", specTypes(specs), groups, resStr(res), res.Msg))
